@@ -216,7 +216,9 @@ contract(
     on_yield=_on_yield_v4,
     ensures=[
         # nothing is lost: all IPv4 announce (and, if asked, withdraw) NLRI bytes were emitted -- unless the attributes
-        # leave no room (msg_size <= 0) or the NLRI at hand cannot fit even in an empty message
+        # leave no room (msg_size <= 0) or the NLRI at hand cannot fit even in an empty message.  For the ANNOUNCES the
+        # property says so itself; for the WITHDRAWALS the two last disjuncts concede the recorded known finding
+        # C09-withdrawal-lost-behind-oversized-attributes (a withdrawal needs no attribute) -- the bounded layer reports it
         '(ea == psum_a(len(v4_announces)) and (not include_withdraw or ew == psum_w(len(v4_withdraws)))) or msg_size <= 0 or packed_size > msg_size',
     ],
     notes=[
@@ -227,6 +229,29 @@ contract(
         ('msg_size = negotiated.msg_size - 19 - 2 - 2 - len(attr)', 'msg_size = negotiated.msg_size - 19 - 2 - len(attr)'),
         ('withdraws = bytes(packed)\n                withdraws_size = packed_size', 'withdraws = bytes(packed)\n                withdraws_size = 0'),
     ],
+)
+
+
+contract(
+    UC,
+    'UpdateCollection.messages#attributes-only',
+    props=('C09',),
+    # `announce attributes ...` without NLRI: the Empty NLRI case, decided before any size is computed
+    segment={'from': 'has_v4 = v4_announces or v4_withdraws', 'to': 'include_defaults = True'},
+    params={
+        'self': obj('exabgp.bgp.message.update.collection:UpdateCollection', _attributes=bool_()),
+        'negotiated': obj(None, msg_size=int_(4096, 65535)),
+        'v4_announces': bool_(),
+        'v4_withdraws': bool_(),
+        'mp_announces': bool_(),
+        'mp_withdraws': bool_(),
+        'has_empty_nlri': bool_(),
+    },
+    requires=['negotiated.msg_size == 4096 or negotiated.msg_size == 65535'],
+    callees={'self.attributes.pack_attribute': returns_fresh('bytes', label='attr')},
+    yields=YIELDS_UPDATE,
+    notes=['segment contract: the four route lists are abstracted into their truth value (all the segment asks of them); the packed attributes are ANY byte string'],
+    canaries=[('if 19 + 2 + 2 + len(attr) > negotiated.msg_size:', 'if 19 + 2 + len(attr) > negotiated.msg_size:')],
 )
 
 
